@@ -11,7 +11,8 @@ import math
 
 from . import sched_impl
 
-TPBS = [1, 2, 3, 4, 10, 24, 96, 100, 480, 960, 1920]
+# incl. resolutions at which (1.0 / tpb) * tpb is not exactly 1.0 in floats (49, 98, 103, 107, 196)
+TPBS = [1, 2, 3, 4, 7, 10, 24, 49, 96, 98, 100, 103, 107, 196, 480, 960, 1920]
 QS = [1, 2, 3, 4, 5, 6, 7, 8, 12, 15, 16, 21, 35, 48, 105]
 
 DEFAULT = dict(
